@@ -246,10 +246,11 @@ def cli_filter_set(filterset):
                 if args[f"{mode}_{a['attr']}_regex"] is not None:
                     return None
                 args[f"{mode}_{a['attr']}_regex"] = a["arg"]
-    # the CLI combines all *_regex options of one mode into ONE filter (conjunction): only one regex per mode is comparable
-    for mode in ("include", "exclude"):
-        if sum(1 for attr in ("path", "method", "name", "tag", "operation_id") if args[f"{mode}_{attr}_regex"]) > 1:
-            return None
+    # the CLI combines all include-*-regex options into ONE filter (conjunction): only one include regex is comparable with the
+    # filter-set model. Every exclude-*-regex option is a filter of its own (an operation matching any of them is excluded),
+    # so several of them - one per attribute - are comparable.
+    if sum(1 for attr in ("path", "method", "name", "tag", "operation_id") if args[f"include_{attr}_regex"]) > 1:
+        return None
     try:
         return FilterArguments(**args).into()
     except Exception:  # noqa: BLE001
